@@ -84,6 +84,10 @@ const basePrelude = `
 (declare-fun bytesval ((Slice Int)) BytesV)
 (declare-fun bvlen (BytesV) Int)
 (assert (forall ((a (Slice Int))) (! (=> (>= (sl.len a) 0) (= (bvlen (bytesval a)) (sl.len a))) :pattern ((bytesval a)))))
+(declare-fun bvat (BytesV Int) Int)
+(assert (forall ((a (Slice Int)) (i Int)) (! (=> (and (<= 0 i) (< i (sl.len a))) (= (bvat (bytesval a) i) (select (sl.arr a) i))) :pattern ((bytesval a) (select (sl.arr a) i)) :pattern ((bvat (bytesval a) i)))))
+; extensionality: equal length and equal bytes give the same abstract value
+(assert (forall ((a (Slice Int)) (b (Slice Int))) (! (=> (and (= (sl.len a) (sl.len b)) (>= (sl.len a) 0) (forall ((i Int)) (! (=> (and (<= 0 i) (< i (sl.len a))) (= (select (sl.arr a) i) (select (sl.arr b) i))) :pattern ((select (sl.arr a) i)) :pattern ((select (sl.arr b) i))))) (= (bytesval a) (bytesval b))) :pattern ((bytesval a) (bytesval b)))))
 (define-fun bytes.eq ((a (Slice Int)) (b (Slice Int))) Bool (= (bytesval a) (bytesval b)))
 (declare-fun s.len (Str) Int)
 (declare-fun s.cat (Str Str) Str)
